@@ -11,7 +11,7 @@ it appends below the current node only and restores it); it is justified by G fo
 the others (headings, directives, targets ... re-root or register nodes elsewhere).
 """
 from pyvc.spec import assumed, contract, fields, spec, implies, forall, exists  # noqa: F401
-from contracts.assumed_docutils import GP_ENS, GP_MOD, GP_TEXT
+from contracts.assumed_docutils import GP_COND, GP_ENS, GP_MOD, GP_REQ, GP_TEXT
 import contracts.lines  # noqa: F401  (token_line / add_line_and_source_path are proved there)
 
 M = "myst_parser.mdit_to_docutils.base"
@@ -88,8 +88,8 @@ contract(
 assumed("DocutilsRenderer.render_children (G')", GP_TEXT, "myst_parser")
 
 RMOD = ["Element.children", "Element.parent", "Element.line", "Element.source", "Element.kind", "Element.text", "Element.format",
-        "Document.log", "self.g_rc_node", "self.current_node", "fresh"]
-REQ = ["self.current_node.kind != 'Text'"]
+        "Document.log", "self.g_rc_node", "DocutilsRenderer.current_node", "fresh"]
+REQ = ["self.current_node.kind != 'Text'"] + GP_REQ
 KEEP = [
     "self.current_node == old(self.current_node)",                                                        # (a)
     "self.current_node.children[: len(old(self.current_node.children))] == old(self.current_node.children)",  # (b)
@@ -134,7 +134,8 @@ for _m, _k in (("render_math_inline", "math"), ("render_math_single", "math"), (
     )
 contract(
     f"{M}:DocutilsRenderer.render_inline",
-    requires=REQ,
+    # an `inline` token is the child of a paragraph / heading / cell token, whose renderer has made a non-structural node current
+    requires=REQ + [GP_COND],
     ensures=KEEP + ["self.g_rc_node == self.current_node"],
     types={"token": "SyntaxTreeNode"}, raises={"Exception": []}, modifies=RMOD, properties=["C02", "C03"],
 )
